@@ -165,20 +165,28 @@ def decide(pid, tier, seed, results, t0, replay=False):
 		assumptions = r.get("assumptions", assumptions)
 		if r.get("exhaustive") is not None:
 			exhaustive = r["exhaustive"]
-		if r.get("digest"):
-			digests.setdefault((r["seed"], r["part"]), {})[str(r["hashseed"])] = r["digest"]
+		if r.get("digests"):
+			digests.setdefault((r["seed"], r["part"]), {})[str(r["hashseed"])] = r["digests"]
 	# hash-seed independence: replicas of one workload must have produced identical results
 	digest_groups = 0
+	digest_cases = 0
 	for key, by_seed in digests.items():
 		if len(by_seed) > 1:
 			digest_groups += 1
-			if len(set(by_seed.values())) > 1:
-				violations["hashseed/results-differ-between-PYTHONHASHSEED-values"] = {
-					"property": pid, "assertion": "result digest identical under every hash seed",
-					"signature": "hashseed/results-differ-between-PYTHONHASHSEED-values", "count": 1,
-					"witnesses": [{"message": f"digests {by_seed} for seed/part {key}", "runner": None,
-						"spec": {"digests": by_seed}, "spec_pickle_b64": None, "seed": key[0], "part": key[1],
-						"hashseed": ",".join(sorted(by_seed))}]}
+			seeds = sorted(by_seed)
+			ref = by_seed[seeds[0]]
+			for hs in seeds[1:]:
+				other = by_seed[hs]
+				for case_idx, dg in ref.items():
+					if case_idx in other:
+						digest_cases += 1
+						if other[case_idx] != dg and "hashseed/results-differ-between-PYTHONHASHSEED-values" not in violations:
+							violations["hashseed/results-differ-between-PYTHONHASHSEED-values"] = {
+								"property": pid, "assertion": "results identical under every hash seed",
+								"signature": "hashseed/results-differ-between-PYTHONHASHSEED-values", "count": 1,
+								"witnesses": [{"message": f"case #{case_idx} of worker seed/part {key}: result digest {dg} under PYTHONHASHSEED={seeds[0]} but {other[case_idx]} under {hs}",
+									"runner": None, "spec": {"case_index": case_idx, "hashseeds": [seeds[0], hs]}, "spec_pickle_b64": None,
+									"seed": key[0], "part": key[1], "hashseed": f"{seeds[0]},{hs}"}]}
 	if not replay:
 		for k, floor in required.items():
 			if strata.get(k, 0) < floor:
@@ -226,6 +234,7 @@ def decide(pid, tier, seed, results, t0, replay=False):
 			"workers": len(results),
 			"hash_seeds": sorted({str(r.get("hashseed_env")) for r in results}),
 			"hashseed_digest_groups_compared": digest_groups,
+			"hashseed_result_digests_compared": digest_cases,
 			"serif_functions_entered": len(funcs),
 			"anchor_functions_required": sorted(anchors),
 			"anchor_functions_missing": sorted(a for a in anchors if a not in funcs),
